@@ -187,6 +187,7 @@ package bytesconv
 //@ ghost var qn int
 //@ ghost var qfs int
 //@ ghost var qk int
+//@ ghost var qok bool
 //@ pure func escArg(c int) bool = QuotedArgShouldEscapeTable[c] != 0
 //@ macro argPlain(c) = c != ' ' && !escArg(c)
 //@ macro argTok(e, p, c, pn) = (c == ' ' ==> e[p] == '+' && pn == p + 1) && (c != ' ' && escArg(c) ==> e[p] == '%' && e[p+1] == upperhex[c / 16] && e[p+2] == upperhex[c % 16] && pn == p + 3) && (argPlain(c) ==> e[p] == c && pn == p + 1)
